@@ -313,6 +313,11 @@ func GenWorldCfg(g *Rng, opt GenOpts) (World, map[string]any) {
 	}
 
 	globFirstDst := ""
+	// two files with the same base name in different directories (used by the
+	// invalid-setting class "flattened basenames collide"; not referenced by
+	// the valid configuration)
+	x.addText("src/dup/a/index.html", "<p>a</p>\n", 0o644)
+	x.addText("src/dup/b/index.html", "<p>b, longer</p>\n", 0o644)
 	// main binary (always: gives every format a payload)
 	x.addFile("src/bin/app", x.size(), Pick(g, []uint32{0o755, 0o775, 0o700}))
 	{
@@ -736,6 +741,12 @@ func GenWorldCfg(g *Rng, opt GenOpts) (World, map[string]any) {
 		}
 		apkBlock["signature"] = apkSig
 		w.Signed = []string{"deb", "rpm", "apk"}
+		if g.Bool(0.3) {
+			x.feats = append(x.feats, "signature_in_overrides")
+		}
+		if _, has := sig["key_id"]; !has && g.Bool(0.35) {
+			x.feats = append(x.feats, "key_id_in_overrides")
+		}
 	}
 
 	if x.feat("format_arch_override", 0.25) {
@@ -839,6 +850,54 @@ func GenWorldCfg(g *Rng, opt GenOpts) (World, map[string]any) {
 			}
 			if len(o) > 0 {
 				ov[f] = o
+			}
+		}
+		if len(ov) > 0 {
+			cfg["overrides"] = ov
+		}
+	}
+	// the documentation allows the format blocks inside overrides too
+	hasFeat := func(name string) bool {
+		for _, f := range x.feats {
+			if f == name {
+				return true
+			}
+		}
+		return false
+	}
+	if hasFeat("signature_in_overrides") || hasFeat("key_id_in_overrides") {
+		ov, _ := cfg["overrides"].(map[string]any)
+		if ov == nil {
+			ov = map[string]any{}
+		}
+		for _, f := range []string{"deb", "rpm", "apk"} {
+			blk, _ := cfg[f].(map[string]any)
+			sigBlk, _ := blk["signature"].(map[string]any)
+			if sigBlk == nil {
+				continue
+			}
+			fo, _ := ov[f].(map[string]any)
+			if fo == nil {
+				fo = map[string]any{}
+			}
+			inner, _ := fo[f].(map[string]any)
+			if inner == nil {
+				inner = map[string]any{}
+			}
+			if hasFeat("signature_in_overrides") {
+				// the whole signature block lives only in overrides.<f>.<f>
+				inner["signature"] = sigBlk
+				delete(blk, "signature")
+				if len(blk) == 0 {
+					delete(cfg, f)
+				}
+			} else if f != "apk" && g.Bool(0.6) {
+				// only the key id is format-specific
+				inner["signature"] = map[string]any{"key_id": keyID(w.KeyName)}
+			}
+			if len(inner) > 0 {
+				fo[f] = inner
+				ov[f] = fo
 			}
 		}
 		if len(ov) > 0 {
